@@ -143,18 +143,6 @@ func fileJSON(c *Config, junk bool) string {
 		strings.Join(ss, ",") + `]}`
 }
 
-// canonEntries: compact JSON with sorted keys of a service_entries array.
-func canonEntries(raw []byte) (string, error) {
-	var l []map[string]any
-	dec := json.NewDecoder(bytes.NewReader(raw))
-	dec.UseNumber()
-	if err := dec.Decode(&l); err != nil {
-		return "", err
-	}
-	b, err := json.Marshal(l)
-	return string(b), err
-}
-
 // ---------------------------------------------------------------- parsing the real calls
 
 type jRule struct {
